@@ -778,6 +778,34 @@ fn judge_calls(kind: Kind, max_attempts: usize, label: &str, obs: &ScenObs) -> V
                 format!("call #{callno} reached the node with no attempt yet reported {}", c.res.show()),
             );
         }
+        // O5: "a later attempt ... reconnects and succeeds once the node is reachable again": when the outcomes
+        // the node had in store at the start of the call are j transport failures followed by a reply, with
+        // j < max_attempts, the attempt budget reaches that reply, so the node must have seen j + 1 attempts
+        // (O2 / O3 then demand that the reply is what the call reports). A malformed reply before it leaves
+        // the question open (the property does not classify it), as does a dead cached connection (`excused`:
+        // an attempt is then spent without reaching the node).
+        if !c.excused {
+            let store = &c.remaining_at_start;
+            let j = store.iter().position(|o| !matches!(o, Out::Refused | Out::AcceptClose | Out::Silent));
+            let reply_at = match j {
+                Some(j) if store[j].is_reply() => Some(j),
+                // the script is exhausted after j failures: the node answers healthily from then on
+                None if !store.is_empty() || c.healthy_phase => Some(store.len()),
+                _ => None,
+            };
+            if let Some(j) = reply_at {
+                if j < sc.max && n < j + 1 && !matches!(c.res, Res::Ok(_) | Res::Server { .. }) {
+                    add(
+                        format!("C19:reachable-node-not-retried:{f}"),
+                        format!(
+                            "call #{callno}: the node was going to fail {j} attempt(s) at the transport level and answer the next one, max_attempts={} allows that, yet the node saw only {n} attempt(s) and the call reported {}",
+                            sc.max,
+                            c.res.show()
+                        ),
+                    );
+                }
+            }
+        }
         // O4: never wedged
         if c.healthy_phase && !c.excused && !matches!(c.res, Res::Ok(_)) {
             let cause = c.last_failure_before.map(|o| o.name()).unwrap_or("nothing");
